@@ -83,7 +83,11 @@ def gen_history(rng, nops):
             if isinstance(i, int) and isinstance(cnt, int) and i < L and i + cnt <= L:
                 model_len[0] -= cnt
         elif r < 0.86:
-            ops.append((["ASHRINK 0 %d" % rng.randrange(4) + lvl()], ("shrink",)))
+            if rng.random() < 0.15:
+                # array_list_shrink on the handle with a slack that cannot be added to the length: refused, nothing changes
+                ops.append((["ASHRINK 0 %s L" % rng.choice(["max", "max-1", str(1 << 61), str(1 << 63), str((1 << 64) - 1 - max(0, L - 1))])], ("shrinkx",)))
+            else:
+                ops.append((["ASHRINK 0 %d" % rng.randrange(4) + lvl()], ("shrink",)))
         elif r < 0.875:
             # the order by current value: sort, change one element in place (the array is not involved in that call), sort again with the same comparator;
             # or sort, append through the lower-level handle of the same array (json_object_get_array + array_list_add), sort again
@@ -153,6 +157,8 @@ def realize(ops, rng):
                 del model[i:i + cnt]
         elif k == "shrink":
             exp.update(ret=0, dels=[])
+        elif k == "shrinkx":
+            exp.update(ret=-1, dels=[])
         elif k == "sort":
             model.sort(key=lambda x: -1 if x is None else x)
             exp.update(dels=[])
@@ -206,12 +212,17 @@ def shard_fn(shard, nshards, seed, tier, exe, nhist):
         meta[cid] = (plan, final)
     # huge arrays (2^20 .. 2*10^7 slots): a sparse model (index -> uid) and whole-array digests instead of dumps; four histories per run
     hugemeta = {}
-    if shard < 4:
-        n0 = [0, 1 << 20, (1 << 24) + 5, 20000000][shard]
+    if shard < 6:
+        n0 = [0, 1 << 20, (1 << 24) + 5, 20000000, (1 << 22) + 1, 5000000][shard]
         cmds, sparse, L, uid, exp = ["NEW 0 1 arrx %d" % n0], {}, 0, 5000, []
         steps = [("put", 1 << 20), ("put", (1 << 20) + (1 << 19) + 10), ("put", 17000000 if shard == 3 else (1 << 21) + 3), ("ins", 5), ("put", (1 << 24) + 1 if shard >= 2 else (1 << 22)), ("del", 3, 1 << 19), ("add",), ("put", 7)]
         rng2 = random.Random("%d/%d/c07huge" % (seed, shard))
         rng2.shuffle(steps)
+        if shard >= 4:
+            # an array that already owns millions of slots, then single puts / inserts landing at 1.6x, 1.9x and 2.3x of what it owns at that moment (the capacity is at least
+            # the length, so the targets are chosen from the lengths reached): whatever growth policy applies to big arrays, the slot written must exist
+            c0 = n0
+            steps = [("put", int(c0 * 1.6)), ("add",), ("ins", int(c0 * 1.6 * 1.9)), ("put", 7), ("put", int(c0 * 1.6 * 1.9 * 1.55)), ("del", 3, 1 << 19)]
         for st in steps:
             uid += 1
             if st[0] == "put":
@@ -300,7 +311,7 @@ def shard_fn(shard, nshards, seed, tier, exe, nhist):
             # locate the operation's own reply and the ADUMP reply
             dump_i = max(i for i, c in enumerate(ccmds) if c.startswith("ADUMP"))
             opline = chunk[dump_i - 1] if k not in ("new",) else chunk[0]
-            if k in ("add", "put", "ins", "del", "shrink"):
+            if k in ("add", "put", "ins", "del", "shrink", "shrinkx"):
                 if any(cc.endswith(" L") or cc.startswith("ALADD") for cc in ccmds):
                     sh.count("operations_through_the_array_list_handle." + k)
                 ret = int(opline.split()[1])
